@@ -35,6 +35,8 @@ pub struct Cfg {
     pub effects: bool,
     /// let `array_set` results flow un-annotated (wildcard array length, known finding)
     pub wildcard_arrays: bool,
+    /// C06: matches with nested patterns (tuples, structs, enums, literals) over random data types
+    pub nested_patterns: bool,
 }
 
 struct StructD {
@@ -296,9 +298,81 @@ impl<'a> Gen<'a> {
                 let i = self.rng.below(2);
                 return format!("array_get({}, {})", arr, i);
             }
+            10 if self.cfg.nested_patterns => {
+                self.feat("match-nested");
+                let st = self.data_ty(2);
+                let s = self.expr(&st, scope, d, pre);
+                let mut arms = String::new();
+                for _ in 0..1 + self.rng.below(4) {
+                    let mut sc = scope.clone();
+                    let p = self.pattern(&st, 2, &mut sc);
+                    let body = self.arm_body(t, &sc, d);
+                    write!(arms, "{} => {}, ", p, body).unwrap();
+                }
+                let body = self.arm_body(t, scope, d);
+                write!(arms, "_ => {}, ", body).unwrap();
+                return format!("match {} {{ {}}}", s, arms);
+            }
             _ => {}
         }
         self.typed_expr(t, scope, d, pre)
+    }
+
+    /// a pattern of type `t` with constructor nesting ≤ `depth`; its variables are added to `sc`
+    fn pattern(&mut self, t: &T, depth: usize, sc: &mut Scope) -> String {
+        let k = self.rng.below(8);
+        if k == 0 {
+            return "_".into();
+        }
+        if k == 1 || depth == 0 && !(Self::is_int(t) || matches!(t, T::Bool | T::Str | T::Unit)) {
+            let v = self.fresh("pv");
+            sc.push((v.clone(), t.clone()));
+            return v;
+        }
+        let d = depth.saturating_sub(1);
+        match t {
+            t if Self::is_int(t) => {
+                self.feat("pat-int");
+                self.int_lit(t)
+            }
+            T::Bool => if self.rng.chance(1, 2) { "true".into() } else { "false".into() },
+            T::Str => {
+                self.feat("pat-str");
+                format!("\"{}\"", ["a", "bc", "", "goml"][self.rng.below(4)])
+            }
+            T::Unit => "()".into(),
+            T::Tuple(ts) => {
+                self.feat("pat-tuple");
+                let ps: Vec<String> = ts.iter().map(|t| self.pattern(t, d, sc)).collect();
+                format!("({})", ps.join(", "))
+            }
+            T::Struct(i) => {
+                self.feat("pat-struct");
+                let fts = self.structs[*i].fields.clone();
+                let ps: Vec<String> = fts.iter().enumerate().map(|(k, ft)| format!("f{}: {}", k, self.pattern(ft, d, sc))).collect();
+                format!("S{} {{ {} }}", i, ps.join(", "))
+            }
+            T::Enum(i) => {
+                self.feat("pat-enum");
+                let vi = self.rng.below(self.enums[*i].variants.len());
+                let payload = self.enums[*i].variants[vi].clone();
+                if payload.is_empty() {
+                    format!("E{}::V{}_{}", i, i, vi)
+                } else {
+                    let ps: Vec<String> = payload.iter().map(|p| self.pattern(p, d, sc)).collect();
+                    format!("E{}::V{}_{}({})", i, i, vi, ps.join(", "))
+                }
+            }
+            T::Opt(inner) => {
+                self.feat("pat-generic-enum");
+                if self.rng.chance(1, 3) { "Opt::Non".into() } else { format!("Opt::Som({})", self.pattern(inner, d, sc)) }
+            }
+            _ => {
+                let v = self.fresh("pv");
+                sc.push((v.clone(), t.clone()));
+                v
+            }
+        }
     }
 
     fn expr_nopre(&mut self, t: &T, scope: &Scope, depth: usize) -> String {
